@@ -11,16 +11,16 @@ def _gens(quick_num, thorough_num):
         out = []
         for i, x in enumerate("ABCDE"):
             out.append(dict(mode="sim", spec="NodeGen.tla", cfg="NodeGenSim%s.cfg" % x, depth=depth, num=n,
-                            max=(12 if q else 200), salt=i, name="walks" + x, timeout=900))
+                            max=(12 if q else 120), salt=i, name="walks" + x, timeout=900))
         # edge cover of the focused models (deletion histories / pin histories) with the past abstracted in the VIEW
         for x, mode, d, mq in (("E", "del", 7, 55), ("B", "del", 7, 55), ("A", "pin", 5, 30), ("E", "pin", 5, 30)):
-            out.append(dict(mode="edges", spec="NodeGen.tla", cfg="NodeGenFocus%s.cfg" % x, depth=d, max=(mq if q else 600),
+            out.append(dict(mode="edges", spec="NodeGen.tla", cfg="NodeGenFocus%s.cfg" % x, depth=d, max=(mq if q else 300),
                             name="%s-edges%s" % (mode, x), env={"VERIF_NODEMODE": mode}, timeout=1500))
         # complete (not sampled) edge cover of pin/unpin histories over two files sharing a chunk, one repeating it
-        out.append(dict(mode="edges", spec="NodeGen.tla", cfg="NodeGenFocusF.cfg", depth=5, max=(400 if q else 2000),
+        out.append(dict(mode="edges", spec="NodeGen.tla", cfg="NodeGenFocusF.cfg", depth=5, max=(400 if q else 1000),
                         name="pin2-edgesF (complete)", env={"VERIF_NODEMODE": "pin2"}, timeout=900))
         # partial holders: the source lacks a data chunk during a download (pyramid intact); then reads, single-chunk reads, retries
-        out.append(dict(mode="edges", spec="NodeGen.tla", cfg="NodeGenFocusD.cfg", depth=(3 if q else 4), max=(60 if q else 700),
+        out.append(dict(mode="edges", spec="NodeGen.tla", cfg="NodeGenFocusD.cfg", depth=(3 if q else 4), max=(60 if q else 300),
                         name="part-edgesD", env={"VERIF_NODEMODE": "part"}, timeout=900))
         # directories (several member files under one manifest root, uploaded as a tar), complete edge covers of small universes:
         # - one uploaded root and cached roots sharing a one-chunk member file, repeated evictions (reference-count releases)
@@ -42,7 +42,7 @@ def _gens(quick_num, thorough_num):
             out.append(dict(mode="edges", spec="NodeGen.tla", cfg="NodeGenFocusA.cfg", depth=3, max=120,
                             name="racedl-edgesA", env={"VERIF_NODEMODE": "racedl"}, timeout=1500))
             # random walks over a directory, the single-file manifest of its first member and a file sharing its tail chunk
-            out.append(dict(mode="sim", spec="NodeGen.tla", cfg="NodeGenSimI.cfg", depth=depth, num=n, max=200, salt=7,
+            out.append(dict(mode="sim", spec="NodeGen.tla", cfg="NodeGenSimI.cfg", depth=depth, num=n, max=120, salt=7,
                             name="walksI", timeout=900))
         return out
     return dict(quick=g("quick"), thorough=g("thorough"))
